@@ -237,9 +237,11 @@ def mk_tree_node(g, name, token, header=None, last_op=None, stage=None):
     return n
 
 
-def mk_tree(g):
+def mk_tree(g, node_builder=None):
     """a MultistageTree with an arbitrary number of stages, each an arbitrary list of nodes"""
-    stages = g.mlist('stages', lambda e: e.mlist('nodes', lambda e2: e2.new(Node, {'id': e2.int('id')}, None)))
+    if node_builder is None:
+        node_builder = lambda e2: e2.new(Node, {'id': e2.int('id')}, None)
+    stages = g.mlist('stages', lambda e: e.mlist('nodes', node_builder))
     root = g.new(Node, {'id': 0, 'token': None, 'parent': None, 'children': [], 'stage': 0, 'header_node': None,
                         'last_signature_nodes': None, 'last_spine_operator_node': None}, None)
     t = g.new(MultistageTree, {'root': root, 'stages': stages}, None)
